@@ -17,13 +17,13 @@ func init() {
 		NonTrivial: func(o *Outcome) bool {
 			return o.Hist.Probes["evictions"] > 0 && o.Hist.Probes["hits-checked"] > 0
 		},
-		Rule:         "seeded key sets built to be confusable (same path on two hosts, queries differing in one byte, prefix/suffix pairs, GET vs HEAD of one URL), forced into one or two shards in most runs, per-shard LRU limit 1-3 so entries are continually evicted and re-created, 20-45 requests of mixed concurrency with expiry; oracle: the self-identifying origin reply inside every response names exactly the requesting client's (method, Host, request-URI). non-trivial = at least one eviction and one cache hit occurred; distinct = distinct history hash",
+		Rule:         "seeded key sets built to be confusable (same path on two hosts, queries differing in one byte, prefix/suffix pairs, GET vs HEAD of one URL), forced into one or two shards in most runs, per-shard LRU limit 1-3 so entries are continually evicted and re-created, 20-45 requests of mixed concurrency with expiry; oracle: the self-identifying origin reply inside every response names exactly the requesting client's (method, Host, request-URI). in a quarter of the plans a tenth of the clients disconnect at a scheduler-chosen step (fault client-disconnect). non-trivial = at least one eviction and one cache hit occurred; distinct = distinct history hash",
 		ExpectProbes: []string{"evictions", "hits-checked", "head-and-get-same-url", "same-path-two-hosts"},
 	})
 	register(&Profile{
 		Name:     "C05",
 		Property: "C05",
-		Gen:      genC05,
+		Gen:      func(g *Gen) *Plan { return swarm(g, genC05(g), 0.2, 0) },
 		Oracles:  []func(o *Outcome) []Violation{respOracle("C05"), servedOracle("C05"), livenessOracle("C05")},
 		NonTrivial: func(o *Outcome) bool {
 			return o.Hist.Probes["hits-checked"] > 0
